@@ -62,7 +62,9 @@ CLAIMED = {
                 note=KERNEL_NOTE, technique=TECH_S),
     "C12": dict(level="proof", design="3/C12",
                 text="Wigner d-weights, Clebsch-Gordan coefficients (sympy and table paths) and delta-index gather arithmetic checked exhaustively over the property's finite label range "
-                     "against exact Fraction/integer spec functions; angle-dependent identities proved symbolically where built.",
+                     "against exact Fraction/integer spec functions; for all angles, proved symbolically on the real code: d == Wigner formula, D unitarity, small-d group law, "
+                     "D(R1)D(R2)=D(R1R2) for 2j <= 8 (D_matrix_conj == conj of the polynomial representation of the real SU2M product Rz Ry Rz, plus the homomorphism lemma), "
+                     "SU2M algebra and Euler-angle extraction rebuilding the rotation.",
                 note=KERNEL_NOTE + "; float tables compared to exact values to 4 ulp", technique=TECH_G + "; " + TECH_S),
     "C13": dict(level="proof", design="3/C13",
                 text="(l,s) enumeration equals the triangle/parity spec set exhaustively for all spins up to 4; LS->helicity matrices equal exact CG products with a rigorous rank certificate up to 5/2.",
